@@ -10,6 +10,8 @@ from nightly rustdoc JSON on every run:
 * `known_edges_are_open` (OPEN FINDING D13): `BucketName → ToBytes::to_bytes → Bytes<'tx>` (by value and
   by reference) drops the transaction borrow `'b`: safe code can keep the bytes past the transaction;
 * `tx_bounded_by_db`: `DB::tx` returns a transaction borrowed from the handle;
+* `every_public_mapped_type_is_handed_out`: the list of handed-out types is derived, not chosen: every public
+  type that (through its private fields, transitively) can hold `Bytes` or the map is on it;
 * `handles_not_send`, `db_is_send`: every handed-out type is `!Send` by the auto-trait evaluation over the
   regenerated (private) fields; `DB` is `Send`.
 LABELLED PARTIAL: the region rule is an abstraction of the borrow checker, validated only on the
@@ -53,5 +55,22 @@ theorem db_is_send : notSend Gen.apiTypes "DB" = false := by decide +kernel
 /-- every handed-out type is present in the regenerated table (a renamed or removed type breaks this) -/
 theorem handed_out_types_exist : handedOut.all (fun t => Gen.apiTypes.any (fun a => a.name == t && a.isPublic)) = true := by
   decide
+
+/-- the list of handed-out types is not chosen by hand: every PUBLIC type of the crate that can hold bytes
+of the memory map — by the closure over the regenerated private fields, seeded with `Bytes` and the map —
+is one of them (or `Bytes` itself, the payload, whose own lifetime parameter is what the owners' signatures
+bound).  A new public type that hands out mapped bytes breaks this until it is classified. -/
+theorem every_public_mapped_type_is_handed_out :
+    (Gen.apiTypes.filter (fun t => t.isPublic && (mappedTypes Gen.apiTypes).contains t.name)).all
+      (fun t => handedOut.contains t.name || t.name == "Bytes") = true := by decide +kernel
+
+/-- … and conversely every handed-out type is in that closure (`KVPairs<I>` through its parameter only) -/
+theorem handed_out_types_hold_mapped_bytes :
+    (handedOut.filter (· != "KVPairs")).all (fun t => (mappedTypes Gen.apiTypes).contains t) = true := by decide +kernel
+
+/-- every public type with a lifetime parameter is classified: handed out, or `Bytes` -/
+theorem every_public_type_with_a_lifetime_is_classified :
+    (Gen.apiTypes.filter (fun t => t.isPublic && !t.lifetimes.isEmpty)).all
+      (fun t => handedOut.contains t.name || t.name == "Bytes") = true := by decide
 
 end Jamm.Props.C14
